@@ -4,7 +4,7 @@ Line-protocol driver for the units model (C09).  One op per modelled function.
 JSON encodings (rationals as `[num, den]` or a bare integer):
   Quantity   {"m": rat, "f": rat, "d": [7 ints]}
   PyVal      {"n": rat} | Quantity             ("u": null stands for new_unit=None)
-  Val        PyVal | {"s": 1} (a str) | {"l": [Val…]} | {"k": [[key, Val]…]} | {"nd": [rat…]} (plain ndarray)
+  Val        PyVal | {"s": 1} (a str) | {"l": [Val…]} | {"k": [[key, Val]…]} | {"nd": [rat…]} (plain ndarray) | {"oa": [Val…]} (object-dtype ndarray) | {"z": {"obj": bool, "v": PyVal}} (0-d ndarray)
   Flat       PyVal | {"l": [PyVal…]} | {"k": [[key, PyVal]…]}
   RegEntry   {"n": rat} | {"m": rat, "dimy": [[symbol, rat, [7 ints], exponent]…]}
 Output: JSON text with rationals as strings "n/d"; exceptions by class name.
@@ -76,6 +76,10 @@ partial def asVal (j : Json) : Except String (Val Q) :=
   match j.getObjVal? "nd" with
   | .ok a => do pure (.ndarray (← (← asArr a).mapM asRat))
   | .error _ =>
+  match j.getObjVal? "oa", j.getObjVal? "z" with
+  | .ok l, _ => do pure (.objarray (← (← asArr l).mapM asVal))
+  | _, .ok z => do pure (.zerod (← getBool z "obj") (← getPy z "v"))
+  | _, _ =>
   match j.getObjVal? "s", j.getObjVal? "l", j.getObjVal? "k" with
   | .ok _, _, _ => pure .str
   | _, .ok l, _ => do pure (.list (← (← asArr l).mapM asVal))
